@@ -28,4 +28,5 @@ regen a67e08b C12 600 C12-modify-retry-keyerror.json C12.wrong-error
 regen 94d30ff C14 600 C14-repair-discards-servermap.json C14.repair-failed
 regen 242469c C35 2000 C35-indexerror-leaves-unvalidated.json C35.state-changed-on-reject
 regen 368e37e C39 3000 C39-overwrite-merge.json C39.final-contents
+regen 55c8edc C34 400 C34-malformed-element-aborts-batch.json C34.good-announcement-suppressed
 rm -rf $S
